@@ -177,6 +177,16 @@ def analyse_loop(text: str) -> dict:
     h = nested["_handle"]
     hb = _strip_nonlocal(_body(h))
     handler_ok = False
+    # optional prologue: the connection is counted by its own thread (`with state_lock: conn_count += 1; _cancel_timer_locked()
+    # [; shutdown_requested = False]` as the very first statement of `_handle`)
+    reg_in_handler = False
+    handler_clears = False
+    if hb and _is_lock_with(hb[0]):
+        pb = [_u(x) for x in hb[0].body]
+        if pb[:2] == ["conn_count += 1", "_cancel_timer_locked()"] and pb[2:] in ([], ["shutdown_requested = False"]):
+            reg_in_handler = True
+            handler_clears = pb[2:] == ["shutdown_requested = False"]
+            hb = hb[1:]
     if len(hb) == 3 and isinstance(hb[2], ast.Try):
         t = hb[2]
         fin = t.finalbody
@@ -205,6 +215,8 @@ def analyse_loop(text: str) -> dict:
     if len(trys) == 1 and len(trys[0].body) == 1 and isinstance(trys[0].body[0], ast.While):
         wl = trys[0].body[0]
         lb = wl.body
+        if len(lb) == 5 and isinstance(lb[0], ast.Try):
+            lb = [lb[0], lb[1], None, lb[2], lb[3], lb[4]]  # no counting section in the loop
         if _u(wl.test) == "True" and len(lb) == 6 and isinstance(lb[0], ast.Try):
             acc = lb[0]
             hs = acc.handlers
@@ -219,7 +231,11 @@ def analyse_loop(text: str) -> dict:
             )
             reg = lb[2]
             reg_ok = False
-            if _is_lock_with(reg):
+            if reg is None:
+                # counted exactly once: in the loop XOR in the handler's prologue
+                reg_ok = reg_in_handler
+                clears = handler_clears
+            elif _is_lock_with(reg) and not reg_in_handler:
                 rb = [_u(x) for x in reg.body]
                 if rb[:2] == ["conn_count += 1", "_cancel_timer_locked()"]:
                     if rb[2:] == []:
@@ -251,6 +267,7 @@ def analyse_loop(text: str) -> dict:
     out["joinTimeoutSecs"] = int(join_secs)
     out["loopShape"] = bool(loop_ok)
     out["clearsFlagOnAccept"] = bool(clears)
+    out["registersInHandler"] = bool(reg_in_handler)
     out["sharedUnderLock"] = _shared_under_lock(fn)
     out["_nodes"] = [fn]
     return out
@@ -444,6 +461,11 @@ def clearsFlagOnAccept : Bool := {_b(a["clearsFlagOnAccept"])}
 /-- `_close_listener_if_idle(fired)` starts with `if timer is not fired: return` (under the lock) and
 `_arm_timer_locked` hands every new `Timer` its own identity -/
 def callbackChecksCurrent : Bool := {_b(a["callbackChecksCurrent"])}
+
+/-- WHERE a connection is counted: `false` = the accept loop runs `with state_lock: conn_count += 1; _cancel_timer_locked()
+[; clear]` right after `accept()`, before the connection's thread exists; `true` = that section is the first statement
+of `_handle`, i.e. it runs in the connection's own thread, whenever that thread gets to run -/
+def registersInHandler : Bool := {_b(a["registersInHandler"])}
 
 /-- every access to `conn_count` / `timer` / `shutdown_requested` after their initialisation is inside
 `with state_lock:` (directly, or in a `*_locked` helper that is only called there) -/
